@@ -221,6 +221,8 @@ def queries(tier):
     for g, members in groups.items():
         members.sort(key=lambda q: q.name)
         keep.append(members[-1])
+        mid = members[len(members) // 2] if (len(members) >= 3 and 'char16_t' not in g and 'char32_t' not in g) else None     # a middle variant too (small sizes hit growth boundaries)
+        if mid is not None and mid is not members[-1]: keep.append(mid)
         for q in members[:-1]:
-            if zlib.crc32(q.name.encode()) % 12 == 0: keep.append(q)
+            if q is not mid and zlib.crc32(q.name.encode()) % 16 == 0: keep.append(q)
     return keep
